@@ -281,7 +281,7 @@ class Gen:
             'tb %s %d %d' % (h, r.choice([0, 1, 10 ** 9]), r.randrange(1, 4)),
             'tell %s %s p%d %d' % (h, t, self.pay, r.randrange(2)), 'pub %s %s p%d %d' % (h, r.choice(USER_TOPICS + ['-']), self.pay, r.randrange(2)),
             'pill %s %s' % (h, t), 'sub %s %s - 0 u%d' % (h, r.choice(SUB_TOPICS), r.randrange(1, 9)), 'unsub %s %s' % (h, r.choice(SUB_TOPICS)),
-            'reg_fd %s f%d - u1' % (h, r.randrange(0, 7)), 'dereg_fd %s f%d' % (h, r.randrange(0, 6)),
+            'reg_fd %s f%d - u1' % (h, r.choice([k for k in range(6) if k not in self.fd_dead] or [7])), 'dereg_fd %s f%d' % (h, r.choice([k for k in range(6) if k not in self.fd_dead] or [7])),
             'reg_tmr %s %d - u1' % (h, r.choice([0, 10 ** 12])), 'dereg_tmr %s %d' % (h, r.choice([0, 10 ** 12])), 'srclen %s' % h])
         self.w('foreign %s %s' % (r.choice(['ctx', 'none']), inner))
 
@@ -394,13 +394,14 @@ ENV_ONLY = ('make_ready', 'drain', 'errno', 'leakcheck')
 
 
 class Rec:
-    __slots__ = ('op', 'depth', 'result', 'dump', 'out', 'invokes', 'parent_cb', 'prev_dump', 'nested', 'evt_cb')
+    __slots__ = ('op', 'depth', 'result', 'dump', 'out', 'invokes', 'parent_cb', 'prev_dump', 'nested', 'evt_cb', 'cbrets')
 
     def __init__(self, op, depth, parent_cb):
         self.op, self.depth, self.parent_cb = op, depth, parent_cb
         self.result, self.dump, self.out, self.invokes = None, None, [], []
         self.prev_dump, self.nested = None, 0
         self.evt_cb = None      # innermost enclosing handler invocation (what `stash <i>` refers to)
+        self.cbrets = []        # (INVOKE line, value returned by the callback body) for the callbacks this op triggered directly
 
 
 def align(lines, out):
@@ -419,7 +420,9 @@ def align(lines, out):
         if not t:
             return None
         if t[0] == 'ret':
-            return 'ret'
+            return 'ret0' if len(t) > 1 and t[1] == '0' else 'ret'
+        if t[0] == 'leakcheck' and depth > 0:
+            return 'ret'           # inside a callback the line ends the body
         if t[0] in ENV_ONLY:
             return None
         r = Rec(op, depth, parent_cb)
@@ -437,12 +440,16 @@ def align(lines, out):
                 r.invokes.append(o)
                 events.append(('I', o, r))
                 # callback body: nested script lines until `ret` (or the end of the script)
+                val = True
                 while True:
                     if st['i'] >= len(lines):
                         break
                     r.nested += 1
-                    if exec_op(depth + 1, o, o if o.startswith('INVOKE on_evt') else evt_cb) == 'ret':
+                    x = exec_op(depth + 1, o, o if o.startswith('INVOKE on_evt') else evt_cb)
+                    if x in ('ret', 'ret0'):
+                        val = x == 'ret'
                         break
+                r.cbrets.append((o, val))
                 continue
             if o.startswith('= '):
                 r.result = o[2:]
